@@ -108,6 +108,11 @@ class TOMap(Ty):
     kind = 'omap'
     def __init__(self, k, v): self.k = k; self.v = v; self.key = 'OMap[%s,%s]' % (k.key, v.key)
 
+class TFun(Ty):
+    """total map K -> V (e.g. a defaultdict whose missing keys read as the default): payload = one z3 array"""
+    kind = 'fun'
+    def __init__(self, k, v): self.k = k; self.v = v; self.key = 'Fun[%s,%s]' % (k.key, v.key)
+
 def omap_member(m, kt):
     n, ks, pos, val = m.t
     p = z3.Select(pos, kt)
@@ -150,6 +155,7 @@ def sort_of(ty):
         _n = _dtname(ty); d = z3.Datatype(_n); d.declare(_n + '_mk', (_n + '_len', z3.IntSort()), (_n + '_arr', z3.ArraySort(z3.IntSort(), sort_of(ty.elem)))); s = d.create()
     elif isinstance(ty, TSet):
         _n = _dtname(ty); d = z3.Datatype(_n); d.declare(_n + '_mk', (_n + '_mem', z3.ArraySort(sort_of(ty.elem), z3.BoolSort())), (_n + '_card', z3.IntSort())); s = d.create()
+    elif isinstance(ty, TFun): s = z3.ArraySort(sort_of(ty.k), sort_of(ty.v))
     elif isinstance(ty, TOMap):
         _n = _dtname(ty); d = z3.Datatype(_n); d.declare(_n + '_mk', (_n + '_n', z3.IntSort()), (_n + '_ks', z3.ArraySort(z3.IntSort(), sort_of(ty.k))), (_n + '_pos', z3.ArraySort(sort_of(ty.k), z3.IntSort())), (_n + '_val', z3.ArraySort(sort_of(ty.k), sort_of(ty.v)))); s = d.create()
     elif isinstance(ty, TMap):
@@ -176,7 +182,7 @@ def vstr(s): return V(TStr, z3.StringVal(s) if isinstance(s, str) else s)
 def pack(v):
     ty = v.ty
     if ty is TNone: return z3.Const('none_v', sort_of(TNone))
-    if isinstance(ty, (TPrim, TEnum, TAny, TRef)): return v.t
+    if isinstance(ty, (TPrim, TEnum, TAny, TRef, TFun)): return v.t
     s = sort_of(ty)
     if isinstance(ty, TOpt):
         isnone, inner = v.t
@@ -193,7 +199,7 @@ def pack(v):
 
 def unpack(t, ty):
     if ty is TNone: return NONE
-    if isinstance(ty, (TPrim, TEnum, TAny, TRef)): return V(ty, t)
+    if isinstance(ty, (TPrim, TEnum, TAny, TRef, TFun)): return V(ty, t)
     s = sort_of(ty)
     if isinstance(ty, TOpt):
         return V(ty, (_simp(s.recognizer(0)(t)), unpack(_simp(s.accessor(1, 0)(t)), ty.inner)))
@@ -216,7 +222,7 @@ def _simp(t):
 def havoc(ty, name, facts):
     """fresh symbolic value of type ty; appends type-invariant facts"""
     if ty is TNone: return NONE
-    if isinstance(ty, (TPrim, TEnum, TAny, TRef)):
+    if isinstance(ty, (TPrim, TEnum, TAny, TRef, TFun)):
         return V(ty, fresh(name, sort_of(ty)))
     if isinstance(ty, TOpt):
         return V(ty, (fresh(name + '_isnone', z3.BoolSort()), havoc(ty.inner, name + '_v', facts)))
@@ -229,7 +235,7 @@ def havoc(ty, name, facts):
         return V(ty, (ln, fresh(name + '_arr', z3.ArraySort(z3.IntSort(), sort_of(ty.elem)))))
     if isinstance(ty, TSet):
         mem = fresh(name + '_mem', z3.ArraySort(sort_of(ty.elem), z3.BoolSort()))
-        card = fresh(name + '_card', z3.IntSort())
+        card = card_fn(mem)
         facts.extend(set_facts(mem, card, ty))
         return V(ty, (mem, card))
     if isinstance(ty, TOMap):
@@ -239,7 +245,7 @@ def havoc(ty, name, facts):
     if isinstance(ty, TMap):
         dom = fresh(name + '_dom', z3.ArraySort(sort_of(ty.k), z3.BoolSort()))
         val = fresh(name + '_val', z3.ArraySort(sort_of(ty.k), sort_of(ty.v)))
-        card = fresh(name + '_card', z3.IntSort())
+        card = card_fn(dom)
         facts.extend(set_facts(dom, card, TSet(ty.k)))
         return V(ty, (dom, val, card))
     raise Unsupported('havoc %r' % ty)
@@ -259,6 +265,16 @@ def type_facts(v, out=None):
 
 def empty_set_term(elem_ty):
     return z3.K(sort_of(elem_ty), z3.BoolVal(False))
+
+def card_fn(mem):
+    """cardinality as a function of the characteristic array: equal sets have equal cardinality by congruence"""
+    return z3.Function('card_' + ''.join(c if c.isalnum() else '_' for c in str(mem.sort())), mem.sort(), z3.IntSort())(mem)
+
+def set_update(mem, card, xt, present):
+    """(new mem, new card term, fact) for adding (present=True) / removing (present=False) element xt"""
+    mem2 = z3.Store(mem, xt, z3.BoolVal(present)); card2 = card_fn(mem2)
+    delta = z3.If(z3.Select(mem, xt), 0, 1) if present else -z3.If(z3.Select(mem, xt), 1, 0)
+    return mem2, card2, card2 == card + delta
 
 def set_facts(mem, card, ty):
     """true facts about a finite set's cardinality (sound to assume)"""
@@ -305,6 +321,10 @@ def coerce(v, ty):
         if isinstance(v.ty, TOpt):
             return V(ty, (v.t[0], coerce(v.t[1], ty.inner)))
         return V(ty, (z3.BoolVal(False), coerce(v, ty.inner)))
+    if isinstance(v.ty, TTuple) and not v.t and isinstance(ty, TFun):
+        return V(ty, z3.K(sort_of(ty.k), pack(coerce(v, ty.v))))       # every key reads as the (empty) default
+    if isinstance(v.ty, TTuple) and not v.t and isinstance(ty, TSeq):
+        return seq_literal([], ty.elem)
     if isinstance(v.ty, TTuple) and not v.t and isinstance(ty, TOMap):
         return V(ty, (z3.IntVal(0), z3.K(z3.IntSort(), pack(default_value(ty.k))), z3.K(sort_of(ty.k), z3.IntVal(-1)), z3.K(sort_of(ty.k), pack(default_value(ty.v)))))
     if isinstance(v.ty, TTuple) and not v.t and isinstance(ty, (TMap, TSet)):
@@ -349,7 +369,7 @@ def box_facts(v, boxed):
 def default_value(ty):
     """an arbitrary but fixed value of the type (payload of a None option)"""
     if ty is TNone: return NONE
-    if isinstance(ty, (TPrim, TEnum, TAny, TRef)):
+    if isinstance(ty, (TPrim, TEnum, TAny, TRef, TFun)):
         return V(ty, z3.Const('dflt_' + ''.join(c if c.isalnum() else '_' for c in ty.key), sort_of(ty)))
     return unpack(z3.Const('dflt_' + _dtname(ty), sort_of(ty)), ty)
 
@@ -369,7 +389,7 @@ def vite(c, a, b):
 
 def _ite(c, a, b, ty):
     if ty is TNone: return NONE
-    if isinstance(ty, (TPrim, TEnum, TAny, TRef)): return V(ty, z3.If(c, a.t, b.t))
+    if isinstance(ty, (TPrim, TEnum, TAny, TRef, TFun)): return V(ty, z3.If(c, a.t, b.t))
     if isinstance(ty, TOpt): return V(ty, (z3.If(c, a.t[0], b.t[0]), _ite(c, a.t[1], b.t[1], ty.inner)))
     if isinstance(ty, TTuple): return V(ty, [_ite(c, x, y, t) for x, y, t in zip(a.t, b.t, ty.items)])
     if isinstance(ty, TRec): return V(ty, {n: _ite(c, a.t[n], b.t[n], t) for n, t in ty.fields})
@@ -427,6 +447,7 @@ def veq(a, b):
     if isinstance(tb, TSeq) and isinstance(ta, TTuple): a = coerce(a, TSeq(_join_all(ta.items)) if ta.items else tb); ta = a.ty
     if isinstance(ta, TSeq) and isinstance(tb, TSeq): return seq_eq(a, b)
     if isinstance(ta, TSet) and isinstance(tb, TSet): return a.t[0] == b.t[0]
+    if isinstance(ta, TFun) and isinstance(tb, TFun): return a.t == b.t
     if isinstance(ta, TOMap) and isinstance(tb, TOMap):
         i = fresh('qi', z3.IntSort())
         return z3.And(a.t[0] == b.t[0], z3.ForAll([i], z3.Implies(z3.And(i >= 0, i < a.t[0]),
